@@ -3,6 +3,7 @@ import LexVerif.Spec.Shortest
 import LexVerif.Model.Dragonbox
 import LexVerif.Model.Format
 import LexVerif.Model.WriteBinary
+import LexVerif.Model.WriteBinaryOpts
 import LexVerif.Model.Grisu
 import LexVerif.Model.WriteRadixInt
 /-!
@@ -58,8 +59,9 @@ def runWf (feats : Features) (ty f bits : String) (opts : List String) (buflen :
     if feats.powerOfTwo ∧ WriteBinary.validPair r fmt.exponentBase ∧ WriteBinary.isPow2Radix r
         ∧ (2 ≤ fmt.exponentRadix ∧ fmt.exponentRadix ≤ 36)
         ∧ (feats.radix ∨ WriteBinary.isPow2Radix fmt.exponentRadix ∨ fmt.exponentRadix = 10)
-        ∧ plain ∧ punct ∧ o.maxDigits.isNone ∧ o.minDigits.isNone ∧ o.nan.isSome ∧ o.inf.isSome ∧ buflen = "-" then
-      match WriteBinary.writeFloat fmt feats o t b with
+        ∧ plain ∧ punct ∧ o.maxDigits ≠ some 0 ∧ o.minDigits ≠ some 0 ∧ o.nan.isSome ∧ o.inf.isSome
+        ∧ (buflen = "-" ∨ buflen.toNat?.getD 0 ≥ 4000) then
+      match WriteBinary.writeFloatO fmt feats o t b with
       | some bytes => some s!"ok {hexBytes bytes}"
       | none => some "panic"
     else none
